@@ -253,6 +253,28 @@ def _(ctx, env0, env, out):
 
 
 c.witnesses['one-element-field'] = _insert_one_element
+
+
+def _insert_array_params(ctx):
+    env = {}
+    f = mk_field(ctx, 'f', 'array')
+    h, w = f.attrs['data'].shape
+    ctx.assume(z3.Not(z3.And(h == 1, w == 1)))
+    R, C = shape2(ctx, 'out', lo=0)
+    intensity = ctx.branch(ctx.fresh_bool('intensity'))
+    out = array(ctx, 'out', (R, C), 'float' if intensity else 'complex')
+    return {'field': f, 'out': out, 'intensity': intensity, 'weight': z3.Real(ctx._name('weight'))}
+
+
+# the same contract restricted to array fields (>= 2 elements): used where insert is re-verified as a
+# dependency of another property, without the one-element known finding of C06
+ca = contract('lentil.field.insert#array')
+ca.qualname = 'lentil.field.insert'
+ca.tag = 'array fields'
+ca.params = _insert_array_params
+ca.modifies = {'out'}
+ca.model = insert_model
+ca.posts = list(c.posts)
 # the body is verified against the property clause above and, separately, against the model that
 # callers (Wavefront.field, propagate_fft, ...) use in its place
 c.model = insert_model
